@@ -245,6 +245,18 @@ def usage_cases(r, base):
     cases.append(('match-err-absent',
                   dict(input_text=text, spec=rules,
                        opts=['--match-err', 'NOT-IN-OUTPUT'])))
+    # a benchmark whose comment is written in Latin-1: not decodable as
+    # UTF-8 (ddSMT may minimise it or refuse it, but not fail internally)
+    cases.append(('input-not-utf8',
+                  dict(input_text=text, spec=rules, _may_complete=True,
+                       input_bytes=b'; caf\xe9 au lait\n' + text.encode())))
+    cases.append(('output-directory-missing',
+                  dict(input_text=text, spec=rules,
+                       outfile_name='no-such-dir/out.smt2')))
+    cases.append(('output-is-directory',
+                  dict(input_text=text, spec=rules, outfile_name='tmp')))
+    cases.append(('jobs-zero',
+                  dict(input_text=text, spec=rules, opts=['-j', '0'])))
     return cases
 
 
@@ -255,6 +267,7 @@ def run_usage(res, base, name, kw, entry):
     rm = kw.pop('_remove_input', False)
     isdir = kw.pop('_input_dir', False)
     nonexec = kw.pop('_nonexec', False)
+    may_complete = kw.pop('_may_complete', False)
     if kw.pop('_cc_nonexec', False):
         ne = os.path.join(wd, 'cc_notexec')
         with open(ne, 'w') as f:
@@ -307,6 +320,12 @@ def run_usage(res, base, name, kw, entry):
     res.add_set('usage_cases', f'{name}/{entry}')
     witness = {'case': name, 'entry': entry, 'rc': run.rc,
                'stdout': run.stdout[-500:], 'stderr': run.stderr[-800:]}
+    if may_complete and run.rc == 0 and not run.uncaught_traceback \
+            and run.out_bytes is not None:
+        # not an error for this implementation: it minimised the input
+        res.count('usage_cases_handled_as_input')
+        shutil.rmtree(wd, ignore_errors=True)
+        return
     if run.uncaught_traceback:
         res.violation(f'usage:{traceback_key(run.stderr)}',
                       f'usage error {name}: uncaught exception', witness)
@@ -535,7 +554,7 @@ def run(ctx):
         'SIGINT is sent to the main pid only'
     ]
     ctx.judge_watchdog('runs')
-    if ctx.counters.get('usage_error_cases', 0) < 22:
+    if ctx.counters.get('usage_error_cases', 0) < 30:
         ctx.inconclusive_because('usage-error cases incomplete')
 
 
